@@ -1,15 +1,8 @@
 (* Executable entry point shared by the extracted OCaml driver and the in-Coq vm_compute shard.
    A case is a command number and groups of integers; the answer is groups of integers.
-   Encoding conventions (harness/cmds.py mirrors them): booleans 0/1, option Z as [] / [v] inside
-   a group or -1 where stated, errors as a leading status group. *)
-From CM Require Import lib.Prelude model.Startbit model.Codec model.ArbId.
-
-Definition io := list (list Z).
-
-Definition zb (z : Z) : bool := negb (Z.eqb z 0).
-Definition bz (b : bool) : Z := if b then 1 else 0.
-Definition nthz (l : list Z) (i : nat) : Z := nth i l 0.
-Definition optz (z : Z) : option Z := if z <? 0 then None else Some z.   (* -1 encodes None *)
+   Encoding conventions: booleans 0/1, option Z as -1 where stated, errors as a leading status group.
+   Per-property command sets live in model/Run_Cxx.v (run_cxx : Z -> io -> option io). *)
+From CM Require Import lib.Prelude model.RunBase model.Startbit model.Codec model.ArbId.
 
 (* all six (bit_numbering, start_little) notations, in the order the harness uses *)
 Definition notations : list (option Z * bool) :=
@@ -65,7 +58,6 @@ Definition run_201 (h dg : list Z) (sgs : io) : io :=
   end.
 
 (* ---- identifiers ---- *)
-Definition oz (o : option Z) : Z := match o with Some v => v | None => -1 end.
 Definition arb_of (g : list Z) : arbid := (nthz g 0, zb (nthz g 1)).
 Definition arb_out (o : option arbid) : list Z :=
   match o with None => [0] | Some a => [1; fst a; bz (snd a)] end.
@@ -98,7 +90,7 @@ Definition run_907 (g : list Z) (fs : io) : io :=
   | PFound f => [[0; fr_uid f]] | PNone => [[1]] | PErr => [[2]]
   end.
 
-Definition run (cmd : Z) (a : io) : io :=
+Definition run_core (cmd : Z) (a : io) : io :=
   match cmd, a with
   | 801, [g] => run_801 g
   | 101, [sg; d] => run_101 sg d
@@ -116,23 +108,5 @@ Definition run (cmd : Z) (a : io) : io :=
   | _, _ => [[-999]]
   end.
 
-(* for the in-Coq shard: indices of cases whose model answer differs from the implementation's *)
-Fixpoint leqb (a b : list Z) : bool :=
-  match a, b with
-  | [], [] => true
-  | x :: a', y :: b' => Z.eqb x y && leqb a' b'
-  | _, _ => false
-  end.
-Fixpoint lleqb (a b : io) : bool :=
-  match a, b with
-  | [], [] => true
-  | x :: a', y :: b' => leqb x y && lleqb a' b'
-  | _, _ => false
-  end.
-Fixpoint mismatches_from (n : Z) (cases : list (Z * io * io)) : list Z :=
-  match cases with
-  | [] => []
-  | (c, a, e) :: rest =>
-      (if lleqb (run c a) e then [] else [n]) ++ mismatches_from (n + 1) rest
-  end.
-Definition mismatches := mismatches_from 0.
+Definition run (cmd : Z) (a : io) : io := run_core cmd a.
+Definition mismatches := mismatches_with run.
